@@ -123,6 +123,10 @@ class kPathCoverCycles(walkmodel.AbstractWalkModelDiGraph):
         self.edges_to_ignore = self.G.source_sink_edges.union(edges_to_ignore_internal)
 
         self.k = k
+        # If k is not specified, we set k to the edge width of the graph (as the other cyclic k-models do)
+        if self.k is None:
+            self.k = self.G.get_width(edges_to_ignore=self.edges_to_ignore)
+            utils.logger.info(f"{__name__}: k received as None, we set it to {self.k} (edge width of the graph)")
         self.subset_constraints_coverage = subset_constraints_coverage
         
         self._solution = None
